@@ -29,6 +29,24 @@ Theorem C18_step : forall content offs s e s', RInv content offs s -> fstep true
 Proof. exact rinv_step. Qed.
 Print Assumptions C18_step.
 
+(* progress of one access, in EVERY reachable state (any tree of forks, any interleaving so far): a process whose seek to item i
+   is pending gets its read accepted, and the read appends exactly one record - its own pid, item i, the line at that offset *)
+Theorem C18_read_progress : forall content offs sched p pr i,
+  let s := frun true content offs finit sched in
+  get_proc s p = Some pr -> fp_pending pr = Some i ->
+  exists s' off, fstep true content offs s (FRead p) = Some s' /\ nth_error offs i = Some off
+    /\ fs_out s' = fs_out s ++ [(p, i, read_at content off)].
+Proof. exact fork_read_progress. Qed.
+Print Assumptions C18_read_progress.
+
+(* a live process can always seek to an indexed item, in any state at all; nothing is output by a seek *)
+Theorem C18_seek_enabled : forall content offs s p pr i off,
+  get_proc s p = Some pr -> nth_error offs i = Some off ->
+  exists s' pr', fstep true content offs s (FSeek p i) = Some s' /\ get_proc s' p = Some pr' /\ fp_pending pr' = Some i
+    /\ fs_out s' = fs_out s.
+Proof. exact seek_enabled. Qed.
+Print Assumptions C18_seek_enabled.
+
 (* why the mechanism is needed - the same model without reopening: the parent reads the child's line *)
 Theorem C18_without_reopen_refuted :
   let content := [97; 10; 98; 10]%Z in let offs := [0; 2] in
